@@ -83,8 +83,47 @@ func replaySeq(spec *SeqSpec, st *seqState) Sys {
 	return sys
 }
 
+// replayOne re-executes the history of a stored violation without the explorer.
+func replayOne(c *Ctx, spec SeqSpec, v *Violation) {
+	sys, err := spec.New()
+	if err != nil {
+		HarnessError("%s: %v", spec.Name, err)
+	}
+	defer sys.Close()
+	fmt.Printf("REPLAY %s (%d steps)\n", spec.Name, len(v.OpIdx))
+	for i, idx := range v.OpIdx {
+		ops := sys.Ops()
+		if idx >= len(ops) {
+			fmt.Printf("  step %d: op index %d not available (%d ops): the tree behaves differently now\n", i, idx, len(ops))
+			return
+		}
+		obs, sv := sys.Apply(ops[idx])
+		fmt.Printf("  step %d: %s => %s\n", i, ops[idx], obs)
+		if sv != nil {
+			fmt.Printf("  STEP VIOLATION %s: %s\n", sv.Sig, sv.Msg)
+			sv.World, sv.Spec, sv.History, sv.OpIdx = spec.World, spec.Name, v.History, v.OpIdx
+			c.Report(sv)
+			return
+		}
+	}
+	vs, _ := sys.Check()
+	for _, cv := range vs {
+		fmt.Printf("  STATE VIOLATION %s: %s\n", cv.Sig, cv.Msg)
+		cv.World, cv.Spec, cv.History, cv.OpIdx = spec.World, spec.Name, v.History, v.OpIdx
+		c.Report(cv)
+		return
+	}
+	fmt.Println("  no violation on replay")
+}
+
 // RunSeq explores spec breadth first, level by level, sharded over all cores.
 func RunSeq(c *Ctx, spec SeqSpec) {
+	if c.Replay != nil {
+		if c.Replay.Spec == spec.Name {
+			replayOne(c, spec, c.Replay)
+		}
+		return
+	}
 	seen := map[string]struct{}{}
 	root := &seqState{}
 	{
